@@ -488,3 +488,12 @@ KNOWN_BRITTLE = {
     ("ben-C16-3", "C02"): "compress_literals: nested if-let rewritten as nested match with guard",
     ("ben-C16-3", "C14"): "compress_literals: nested if-let rewritten as nested match with guard",
 }
+
+# ---- C09: window counter accounting --------------------------------------------------------
+mutant("c09-counter-double-count", "C09", "C09.acct.window-counter", DB,
+       "                self.total_output_counter += bytes_from_dict as u64;\n", "                self.total_output_counter += match_length as u64;\n")
+mutant("c09-push-counts-twice", "C09", "C09.acct.window-counter", DB,
+       "        self.total_output_counter += data.len() as u64;\n", "        self.total_output_counter += 2 * data.len() as u64;\n")
+benign("c09-counter-before-append", "C09", DB,
+       "        self.buffer.extend(data);\n        self.total_output_counter += data.len() as u64;\n",
+       "        self.total_output_counter += data.len() as u64;\n        self.buffer.extend(data);\n")
